@@ -75,7 +75,6 @@ class Prop:
     engine = "TH (controlled threads: baton passing, line-level pre-emption points, simulated locks/conditions/clock)"
     quick_runs = 20000
     thorough_runs = 300000
-    quick_budget = 80.0
     chunk = 100
     time_unit = "simulated seconds"
     rule = ("a controlled producer thread emits a seeded sequence (0-6 elements, optional sleeps, completion / error / none) into "
